@@ -289,7 +289,12 @@ func (eng *Engine) VerifyFunc(f *ssa.Function) (rep *FuncReport) {
 	}
 	ex.pre = st.clone()
 	ex.inputs = vars
+	if fc != nil && len(fc.Requires) > 0 {
+		o := ex.oblige(st, "cover", "requires-satisfiable", nil, TFalse, "requires of "+funcShort(f), "")
+		o.Cover = true
+	}
 	outs := ex.execFrom(st, f.Blocks[0], 0, nil)
+	var covers []*Obligation
 	for _, o := range outs {
 		s := o.st
 		if o.kind == OPanic {
@@ -328,8 +333,22 @@ func (eng *Engine) VerifyFunc(f *ssa.Function) (rep *FuncReport) {
 			if ob != nil {
 				ob.Watch = ex.watchTerms(rvars)
 			}
+			// cover: the antecedent of an implication must be reachable on some path
+			ante := TTrue
+			if c.E.Op == "binop" && c.E.Name == "==>" {
+				av := ex.evalWith(env, &Clause{E: c.E.Args[0], File: c.File, Line: c.Line, Src: c.Src})
+				ante = av
+			}
+			cs := s.clone()
+			cs.assume(ante)
+			co := ex.oblige(cs, "cover", c.Label, c.Tags, TFalse, "antecedent of "+c.Label+" reachable", fmt.Sprintf("%s:%d", filepath.Base(c.File), c.Line))
+			if co != nil {
+				co.Cover = true
+				covers = append(covers, co)
+			}
 		}
 	}
+	_ = covers
 	return rep
 }
 
@@ -471,11 +490,41 @@ func (eng *Engine) builtinFacts(q []*Term) []*Term {
 	return out
 }
 
-// SolveAll discharges obligations in parallel.
+// SolveAll discharges obligations in parallel. Cover obligations (vacuity
+// guards) are grouped by name and solved until one member is satisfiable.
 func (eng *Engine) SolveAll(obls []*Obligation, axioms []*Term) {
 	var wg sync.WaitGroup
 	sem := make(chan struct{}, 14)
+	solveOne := func(o *Obligation) {
+		hyps := o.Hyps.list()
+		q := append(append([]*Term{}, hyps...), o.Goal)
+		ax := relevantAxioms(axioms, q)
+		all := append(append([]*Term{}, ax...), hyps...)
+		all = append(all, eng.builtinFacts(append(q, ax...))...)
+		to := eng.timeoutS
+		if o.Cover && to > 3 {
+			to = 3
+		}
+		r := Solve(o.Name, all, o.Goal, to, eng.seed, eng.thorough && !o.Cover, o.Cover)
+		if r.Status == "sat" && r.QFScript != "" && len(o.Watch) > 0 && !o.Cover {
+			r.Values = GetValues(r.QFScript, o.Watch, eng.timeoutS)
+		}
+		r.QFScript = ""
+		if o.Cover {
+			r.Model = ""
+		}
+		o.Result = &r
+	}
+	groups := map[string][]*Obligation{}
+	var order []string
 	for _, o := range obls {
+		if o.Cover {
+			if _, ok := groups[o.Name]; !ok {
+				order = append(order, o.Name)
+			}
+			groups[o.Name] = append(groups[o.Name], o)
+			continue
+		}
 		if o.Goal.Op == "true" {
 			o.Result = &SolveResult{Status: "unsat", Solver: "simplifier", Stage: "syntactic"}
 			continue
@@ -485,17 +534,47 @@ func (eng *Engine) SolveAll(obls []*Obligation, axioms []*Term) {
 			defer wg.Done()
 			sem <- struct{}{}
 			defer func() { <-sem }()
-			hyps := o.Hyps.list()
-			q := append(append([]*Term{}, hyps...), o.Goal)
-			ax := relevantAxioms(axioms, q)
-			all := append(append([]*Term{}, ax...), hyps...)
-			all = append(all, eng.builtinFacts(append(q, ax...))...)
-			r := Solve(o.Name, all, o.Goal, eng.timeoutS, eng.seed, eng.thorough)
-			if r.Status == "sat" && r.QFScript != "" && len(o.Watch) > 0 {
-				r.Values = GetValues(r.QFScript, o.Watch, eng.timeoutS)
-			}
-			o.Result = &r
+			solveOne(o)
 		}(o)
 	}
+	for _, name := range order {
+		g := groups[name]
+		wg.Add(1)
+		go func(g []*Obligation) {
+			defer wg.Done()
+			sem <- struct{}{}
+			defer func() { <-sem }()
+			covered := false
+			for _, o := range g {
+				if covered {
+					o.Result = &SolveResult{Status: "skipped", Solver: "-", Stage: "cover"}
+					continue
+				}
+				// a syntactically false hypothesis set is vacuous without asking
+				solveOne(o)
+				if o.Result.Status != "unsat" {
+					covered = true
+				}
+			}
+		}(g)
+	}
 	wg.Wait()
+}
+
+// Verdict classifies an obligation after solving.
+// ok: discharged (or, for covers, satisfiable). Cover groups are judged by coverVerdicts.
+func coverVerdicts(obls []*Obligation) map[string]bool {
+	res := map[string]bool{}
+	for _, o := range obls {
+		if !o.Cover {
+			continue
+		}
+		if _, ok := res[o.Name]; !ok {
+			res[o.Name] = false
+		}
+		if o.Result != nil && (o.Result.Status == "sat" || o.Result.Status == "unknown") {
+			res[o.Name] = true
+		}
+	}
+	return res
 }
